@@ -32,3 +32,16 @@ Theorem C12_dispatch_and_default :
   /\ default_allowed = [5; 7; 9; 10]%N.
 Proof. split; reflexivity. Qed.
 Print Assumptions C12_dispatch_and_default.
+
+(* non-vacuity of C12_filter: under allowed = {5, 10} a buffer V5 ; V9 template ; IPFIX gives the
+   V5 element only (the V9 packet and everything after it are neither reported nor cached),
+   whereas all three are reported when every version is allowed *)
+Example C12_example :
+  let a := [x00; x05; x00; x01; x03; x00; x04; x00; x05; x00; x06; x07; x08; x09; x00; x01; x02; x03; x04; x05; x06; x07; x08; x09; x00; x01; x02; x03; x04; x05; x06; x07; x08; x09; x00; x01; x02; x03; x04; x05; x06; x07; x08; x09; x00; x01; x02; x03; x04; x05; x06; x07; x08; x09; x00; x01; x02; x03; x04; x05; x06; x07; x08; x09; x00; x01; x02; x03; x04; x05; x06; x07] in
+  let b := [x00; x09; x00; x01; x00; x00; x00; x01; x00; x00; x00; x02; x00; x00; x00; x03; x00; x00; x00; x04; x00; x00; x00; x0c; x01; x00; x00; x01; x00; x08; x00; x04] in
+  let c := [x00; x0a; x00; x10; x00; x00; x00; x01; x00; x00; x00; x02; x00; x00; x00; x03] in
+  match parse_bytes true all_versions empty_state (a ++ b ++ c), parse_bytes true (allow_list [5; 10]%N) empty_state (a ++ b ++ c) with
+  | Some [(PV5 p, _); (PV9 _, _); (PIx _, _)], Some [(PV5 q, s)] => p = q /\ s = empty_state
+  | _, _ => False
+  end.
+Proof. vm_compute. split; reflexivity. Qed.
